@@ -59,6 +59,17 @@
     — Proofs/OptsGood, CrossLoad —, the second loop keeps it, and the walks print about a column only from a record of
     that name with an action).  (That an *index* equal on both sides gets no statement is part of `Abs.Idx.emit`.)
 
+  * `changed_column_modified` — **the converse: a column that differs is modified with the new definition**: if a
+    column of a table present on both sides has another type on the two sides, or other options (options other than
+    COMMENT, compared up to order), `MigrationColumnUp` of the diffed record prints a MODIFY COLUMN whose definition
+    the reference engine reads as exactly the new side's column (same name, type, options up to order, no PRIMARY KEY
+    flag), and `MigrationColumnDown` prints one it reads as the old side's column (Proofs/Changed: the first loop of
+    `Table.Diff` tags the column `modify` and keeps the old attributes, because equal comparison keys would make the
+    reference options equal up to order — `perm_of_not_changed`, the comparison key is injective on options other than
+    COMMENT, `ckey_inj` —; the later loops keep the record up to foreign-key marks, `Table.diff_like`; the walk prints the
+    MODIFY of every `modify` record, `Table.walkCols_modify`).  COMMENT texts are compared through `String.replace`
+    (quote doubling), whose injectivity is not proved: a column that differs in a COMMENT only is outside the theorem.
+
   * `equal_primary_key_untouched` — likewise an unchanged primary key declared at table level gets no ADD / DROP
     PRIMARY KEY, whatever dropped-column list the index walk is called with (reader fidelity on table-level keys,
     C05.primary_key_table_level).
@@ -69,8 +80,8 @@
     have gets neither —, which turns the old set of tables into the new one (Proofs/TablesClause: what the two table
     loops of `Migration.Diff` leave, and the table-level content of each printer).
 
-  Missing for `Statement_partial`: the converse attribute lemma (a MODIFY carrying the new definition for exactly the
-  columns whose type or options differ), the primary key, and the lift from one table's lists to the whole schema.  Those parts are covered by the correspondence run and
+  Missing for `Statement_partial`: a changed primary key (recorded finding `pk-changed`), a column that differs in its
+  COMMENT only, and the lift from one table's lists to the whole schema.  Those parts are covered by the correspondence run and
   by the executable predicate `Spec.c01` evaluated on the implementation's printed migration on every check.
 -/
 import SqlizeModel.Abs.Columns
@@ -79,6 +90,7 @@ import SqlizeModel.Proofs.MergeRefine
 import SqlizeModel.Proofs.EndToEnd
 import SqlizeModel.Proofs.EndToEndElems
 import SqlizeModel.Proofs.Untouched
+import SqlizeModel.Proofs.Changed
 import SqlizeModel.Proofs.TablesClause
 import SqlizeModel.Impl.Api
 import SqlizeModel.Spec.Scope
@@ -181,6 +193,42 @@ theorem equal_column_untouched (g : Globals) (hg : g.dialect = .mysql) (rc : Boo
     ∃ td ∈ d.tables, td.name = t ∧ td.action = .none ∧
       ∀ up, ∀ s ∈ (Table.walkCols g t up [] td.cols).1, stmtCol s ≠ some cN.name :=
   Sqlize.equal_column_untouched g hg rc old new dbO dbN ho hn hpo hpn heo hen d hd t tbO tbN hfo hfn cN cO hcN hcO hname htyp hopts
+
+/-- a column that differs between the two sides is modified: the new definition going up, the old one going down -/
+theorem changed_column_modified (g : Globals) (hg : g.dialect = .mysql) (rc : Bool)
+    (old new : List Stmt) (dbO dbN : DB) (ho : old.all Stmt.elemSafe = true) (hn : new.all Stmt.elemSafe = true)
+    (hpo : old.all Stmt.plainOpts = true) (hpn : new.all Stmt.plainOpts = true)
+    (heo : execAll rc [] old = some dbO) (hen : execAll rc [] new = some dbN)
+    (d : Migration) (hd : loadAndDiff g old new = .ok d)
+    (t : String) (tbO tbN : TableSpec) (hfo : dbO.find t = some tbO) (hfn : dbN.find t = some tbN)
+    (cN cO : ColSpec) (hcN : cN ∈ tbN.cols) (hcO : cO ∈ tbO.cols) (hname : cO.name = cN.name)
+    (hchg : cO.typ ≠ cN.typ ∨
+      (¬ cO.opts.Perm cN.opts ∧ (∀ k ∈ cO.opts, k.noComment = true) ∧ (∀ k ∈ cN.opts, k.noComment = true))) :
+    ∃ td ∈ d.tables, td.name = t ∧ td.action = .none ∧
+      (∃ cd, Stmt.modifyColumn t cd ∈ (Table.walkCols g t true [] td.cols).1 ∧
+        (colOf cd).2 = false ∧ (colOf cd).1.name = cN.name ∧ (colOf cd).1.typ = cN.typ ∧ (colOf cd).1.opts.Perm cN.opts) ∧
+      (∃ cd, Stmt.modifyColumn t cd ∈ (Table.walkCols g t false [] td.cols).1 ∧
+        (colOf cd).2 = false ∧ (colOf cd).1.name = cO.name ∧ (colOf cd).1.typ = cO.typ ∧ (colOf cd).1.opts.Perm cO.opts) :=
+  Sqlize.changed_column_modified g hg rc old new dbO dbN ho hn hpo hpn heo hen d hd t tbO tbN hfo hfn cN cO hcN hcO hname hchg
+
+-- non-vacuity of `changed_column_modified`: on `exOldU` / `exNewU` (below) column `b` is retyped; a second pair changes
+-- the options of a column (NOT NULL dropped, DEFAULT changed)
+def exOldM : List Stmt :=
+  [.createTable "t" 0 [{ name := "a", typ := "int(11)", opts := [{ kind := .notNull }, { kind := .default, dflt := .num "1" }] }] []]
+def exNewM : List Stmt :=
+  [.createTable "t" 0 [{ name := "a", typ := "int(11)", opts := [{ kind := .default, dflt := .num "2" }] }] []]
+example : exOldM.all Stmt.elemSafe = true ∧ exNewM.all Stmt.elemSafe = true ∧ exOldM.all Stmt.plainOpts = true ∧
+    exNewM.all Stmt.plainOpts = true ∧ (execAll true [] exOldM).isSome = true ∧ (execAll true [] exNewM).isSome = true := by decide
+example : (execAll true [] exOldM).map (fun db => db.map (fun tb => tb.cols.map (·.opts))) = some [[[.notNull, .default "1"]]] ∧
+    (execAll true [] exNewM).map (fun db => db.map (fun tb => tb.cols.map (·.opts))) = some [[[.default "2"]]] := by decide
+example : ∃ d, loadAndDiff {} exOldM exNewM = .ok d ∧
+    (d.tables.map (fun t => ((Table.walkCols {} t.name true [] t.cols).1.map (fun s => match s with
+      | .modifyColumn _ cd => some (colOf cd) | _ => none),
+      (Table.walkCols {} t.name false [] t.cols).1.map (fun s => match s with
+      | .modifyColumn _ cd => some (colOf cd) | _ => none)))) =
+      [([some ({ name := "a", typ := "int(11)", opts := [.default "2"] }, false)],
+        [some ({ name := "a", typ := "int(11)", opts := [.notNull, .default "1"] }, false)])] :=
+  ⟨_, by rfl, by decide⟩
 
 /-- table clause of C01 from scripts to printed statements (MySQL reader model) -/
 theorem tables_from_scripts (g : Globals) (hg : g.dialect = .mysql) (rc : Bool) (old new : List Stmt) (dbO dbN : DB)
